@@ -72,6 +72,9 @@ def specRun (a : Spec) : List Op → Spec × List Out
 /-! ## line protocol (`ring …`) -/
 open Hive.Proto Hive.C12a
 
+/-- White-box state printed after every answer: the first 64 buffer cells, `pos`, `size`. -/
+def showState (s : St) : String := s!"b{showNatList (s.buf.take 64)} p{s.pos} n{s.size}"
+
 def stepLine (s : St) (toks : List String) : St × String :=
   match toks with
   -- capacity 0 is legal to construct: ToSlice is empty, Add panics (index out of range, nothing
